@@ -717,4 +717,140 @@ Proof.
   - intros tm q. apply has_preserved.
 Qed.
 
+
+(* ---- one pass, the loop ---- *)
+Definition init1 (tabs : list table) : Prop :=
+  forall i, i < n -> In (bit i, (nth i nodes [], (0%Z, []))) (nth 1 tabs []).
+Definition Inv (tabs : list table) : Prop := length tabs = n + 1 /\ sound tabs /\ init1 tabs.
+Definition capped (C : Z) (tabs : list table) : Prop :=
+  forall x, In x (nth n tabs []) -> (e_score (snd x) <= C)%Z.
+Definition Q (C : Z) (m : nat) (tabs : list table) : Prop :=
+  Inv tabs /\ capped C tabs /\ forall m', 1 <= m' < m -> covers C tabs m'.
+
+Lemma covers_1 C tabs : init1 tabs -> covers C tabs 1.
+Proof.
+  intros H t S Hv Hn _ _. inversion Hv as [i Hi|l r Sl Sr Hvl Hvr Hd]; subst.
+  - eexists. split; [apply H, Hi|]. cbn. lia.
+  - cbn [nleaves] in Hn. pose proof (vtree_nleaves_pos _ _ _ Hvl). pose proof (vtree_nleaves_pos _ _ _ Hvr). lia.
+Qed.
+
+Lemma level_pass_Q C m tabs : 2 <= m <= n -> Q C m tabs -> Q C (S m) (level_pass app szs o so C tabs m).
+Proof.
+  intros Hm ((Hlen & Hs & Hi) & Hcap & Hcov).
+  split; [split; [|split]|split].
+  - unfold level_pass. rewrite set_nth_length. exact Hlen.
+  - apply level_pass_sound, Hs.
+  - intros i Hlt. unfold level_pass. rewrite nth_set_nth_other by lia. apply Hi, Hlt.
+  - intros x. unfold level_pass.
+    match goal with |- In x (nth n (set_nth m ?v tabs) []) -> _ =>
+      destruct (nth_set_nth_cases v (@nil (N * entry)) tabs m n) as [E|[E0 E]]; rewrite E; [apply Hcap|]; clear E end.
+    revert x.
+    apply (fold_left_inv (fun tm k => fold_left (trypair C) (pairs_for tabs m k) tm)
+                         (fun tm => forall x, In x tm -> (e_score (snd x) <= C)%Z)).
+    + intros tm k _ Htm.
+      apply (fold_left_inv (trypair C) (fun tm => forall x, In x tm -> (e_score (snd x) <= C)%Z)); [|exact Htm].
+      intros tm' p _ Htm'. apply try_pair_capped, Htm'.
+    + rewrite <- E0. exact Hcap.
+  - intros m' Hm'. destruct (Nat.eq_dec m' m) as [->|Hne].
+    + apply level_pass_covers; assumption.
+    + intros t S Hv Hn Ha Hc. unfold level_pass. rewrite nth_set_nth_other by exact Hne.
+      apply (Hcov m' ltac:(lia) t S Hv Hn Ha Hc).
+Qed.
+
+Lemma fold_level_Q C : forall k m tabs, 2 <= m -> m + k = n + 1 -> Q C m tabs ->
+  Q C (n + 1) (fold_left (level_pass app szs o so C) (seq m k) tabs).
+Proof.
+  induction k as [|k IH]; intros m tabs Hm Hk HQ; cbn [seq fold_left].
+  - replace (n + 1) with m by lia. exact HQ.
+  - apply IH; [lia | lia |]. apply level_pass_Q; [lia | exact HQ].
+Qed.
+
+Lemma full_pass_Q C tabs : 1 <= n -> Inv tabs -> capped C tabs ->
+  Q C (n + 1) (full_pass app szs o so n C tabs).
+Proof.
+  intros Hn HI Hc. unfold full_pass. apply fold_level_Q; [lia | lia |].
+  split; [exact HI|]. split; [exact Hc|]. intros m' Hm'. replace m' with 1 by lia.
+  apply covers_1. apply HI.
+Qed.
+
+Definition LI (tabs : list table) : Prop :=
+  Inv tabs /\ (nth n tabs [] <> [] -> exists C, capped C tabs /\ covers C tabs n).
+
+Lemma dp_loop_LI : 1 <= n -> forall fuel cap tabs r, LI tabs ->
+  dp_loop app szs o so n fuel cap tabs = Some r -> LI (fst r) /\ nth n (fst r) [] <> [].
+Proof.
+  intros Hn. induction fuel as [|f IH]; intros cap tabs r HLI H; cbn [dp_loop] in H.
+  - destruct (nth n tabs []) eqn:E; [discriminate|]. inversion H; subst. cbn [fst]. split; [exact HLI|]. congruence.
+  - destruct (nth n tabs []) eqn:E.
+    + apply IH in H; [exact H|]. destruct HLI as [HI _].
+      assert (Hc : capped cap tabs) by (intros x Hx; rewrite E in Hx; destruct Hx).
+      destruct (full_pass_Q cap tabs Hn HI Hc) as (HI' & Hc' & Hcov').
+      split; [exact HI'|]. intros _. exists cap. split; [exact Hc'|]. apply Hcov'. lia.
+    + inversion H; subst. cbn [fst]. split; [exact HLI|]. congruence.
+Qed.
+
+Lemma nth_repeat_nil {A} k m : nth m (repeat (@nil A) k) [] = [].
+Proof. revert m; induction k as [|k IH]; intros [|m]; cbn; auto. Qed.
+
+Lemma dp_init_level1 :
+  1 <= n -> nth 1 (dp_init n nodes) [] =
+            map (fun il => (bit (fst il), (snd il, (0%Z, [])))) (combine (seq 0 n) nodes).
+Proof.
+  intros Hn. unfold dp_init. apply nth_set_nth_same. rewrite repeat_length. lia.
+Qed.
+
+Lemma dp_init_other m : m <> 1 -> nth m (dp_init n nodes) [] = [].
+Proof.
+  intros Hm. unfold dp_init. rewrite nth_set_nth_other by exact Hm. apply nth_repeat_nil.
+Qed.
+
+Lemma LI_init : 1 <= n -> LI (dp_init n nodes).
+Proof.
+  intros Hn.
+  assert (Hi : init1 (dp_init n nodes)).
+  { intros i Hlt. rewrite dp_init_level1 by exact Hn.
+    apply (in_map (fun il => (bit (fst il), (snd il, (0%Z, [])))) _ (i, nth i nodes [])).
+    apply (in_combine_seq nodes [] 0). split; [lia|]. rewrite Nat.sub_0_r. reflexivity. }
+  assert (Hs : sound (dp_init n nodes)).
+  { intros m x Hx. destruct (Nat.eq_dec m 1) as [->|Hne]; [|rewrite dp_init_other in Hx by exact Hne; destruct Hx].
+    rewrite dp_init_level1 in Hx by exact Hn. apply in_map_iff in Hx. destruct Hx as [[i l] [<- Hin]].
+    apply (in_combine_seq nodes [] 0) in Hin. destruct Hin as [Hlt ->]. rewrite Nat.sub_0_r. cbn [fst snd].
+    exists (Leaf i). cbn [fst snd]. split; [constructor; lia|]. split; [reflexivity|].
+    split; [unfold admissible; cbn [outer_free]; apply orb_true_r|].
+    split; [unfold e_legs; cbn [fst]; apply Hleaf; lia|]. split; reflexivity. }
+  split; [split; [|split; assumption]|].
+  - unfold dp_init. rewrite set_nth_length, repeat_length. reflexivity.
+  - intros Hne. destruct (Nat.eq_dec n 1) as [E|E]; [|rewrite dp_init_other in Hne by exact E; congruence].
+    assert (Hk : forall k, k = 1 -> exists C,
+               (forall x, In x (nth k (dp_init n nodes) []) -> (e_score (snd x) <= C)%Z)
+               /\ covers C (dp_init n nodes) k).
+    { intros k ->. exists 0%Z. split.
+      - intros x Hx. rewrite dp_init_level1 in Hx by exact Hn. apply in_map_iff in Hx.
+        destruct Hx as [il [<- _]]. cbn. lia.
+      - apply covers_1, Hi. }
+    exact (Hk n E).
+Qed.
+
+(* the score returned by the DP is the score of an admissible tree over n leaves and is
+   minimal among ALL admissible trees over n leaves *)
+Theorem dp_result_optimal fuel cap sc bp : 1 <= n ->
+  dp_result app szs o so n nodes fuel cap = Some (sc, bp) ->
+  (exists t S, vtree n t S /\ nleaves t = n /\ adm t = true /\ tsc t = sc /\ bitpath t = bp) /\
+  (forall t' S', vtree n t' S' -> nleaves t' = n -> adm t' = true -> (sc <= tsc t')%Z).
+Proof.
+  intros Hn. unfold dp_result.
+  destruct (dp_loop app szs o so n fuel cap (dp_init n nodes)) as [[tabs' cap']|] eqn:EL; [|discriminate].
+  destruct (dp_loop_LI Hn fuel cap _ _ (LI_init Hn) EL) as [[(Hlen & Hs & Hi) HC] Hne]. cbn [fst] in *.
+  destruct (nth n tabs' []) as [|[S e] [|]] eqn:E; try discriminate.
+  intros H; inversion H; subst. clear H.
+  destruct (HC ltac:(congruence)) as (C & Hcap & Hcov).
+  split.
+  - destruct (Hs n (S, e)) as (t & Hv & Hnl & Ha & _ & Hsc & Hp); [rewrite E; left; reflexivity|].
+    cbn [fst snd] in *. exists t, S. auto.
+  - intros t' S' Hv' Hn' Ha'. destruct (Z.le_gt_cases (tsc t') C) as [Hle|Hgt].
+    + destruct (Hcov t' S' Hv' Hn' Ha' Hle) as (e' & Hin & Hle'). rewrite E in Hin.
+      destruct Hin as [Hin|[]]. inversion Hin; subst. exact Hle'.
+    + specialize (Hcap (S, e)). rewrite E in Hcap. specialize (Hcap (or_introl eq_refl)). cbn [snd] in Hcap. lia.
+Qed.
+
 End PartB.
